@@ -950,6 +950,7 @@ class TFLiteSupportedOperators:
             axis = [int(op.inputs[1].values)]
         else:
             axis = list(op.inputs[1].values)
+        axis = [ax + len(shape) if ax < 0 else ax for ax in axis]  # Convert to positive axis
 
         width_idx = len(shape) - 2
 
@@ -970,6 +971,7 @@ class TFLiteSupportedOperators:
             axis = [int(op.inputs[1].values)]
         else:
             axis = list(op.inputs[1].values)
+        axis = [ax + len(shape) if ax < 0 else ax for ax in axis]  # Convert to positive axis
 
         depth_idx = len(shape) - 1
 
